@@ -22,7 +22,8 @@ open ElaVerif.Fixed64
 /-- classes of tx structs, by which amount-relevant methods they override -/
 inductive Class
   | coinbase   -- own ContextCheck, not subject of C01
-  | bare       -- overrides nothing amount-relevant (RegisterAsset, Record): DefaultChecker throughout
+  | refused    -- RegisterAsset since bcb6426e: CheckTransactionInput always fails (only valid in the genesis block)
+  | bare       -- overrides nothing amount-relevant (Record): DefaultChecker throughout
   | plain      -- DefaultChecker.CheckTransactionInput/Output/Fee; SpecialContextCheck never ends with (nil,true)
   | plainOut   -- own copy of the default output loop (TransferAsset, TransferCrossChainAsset, WithdrawFromSideChain, ReturnSideChainDepositCoin)
   | zero       -- "no cost": no inputs, no outputs, SpecialContextCheck ends the context check
@@ -36,7 +37,8 @@ inductive Class
 /-- Go tx type code (core/types/common TxType) → class; `none` = the factory rejects the code -/
 def classOf : Nat → Option Class
   | 0 => some .coinbase
-  | 1 | 3 => some .bare
+  | 1 => some .refused
+  | 3 => some .bare
   | 2 | 7 | 8 | 81 => some .plainOut
   | 5 => some .sidePow
   | 9 | 10 | 11 | 12 => some .plain
@@ -60,6 +62,7 @@ def classOf : Nat → Option Class
     (all others are DefaultChecker's) -/
 def expectedOverrides : Class → List String
   | .coinbase => ["CheckTransactionInput", "CheckTransactionOutput", "ContextCheck"]
+  | .refused => ["CheckTransactionInput"]
   | .bare | .plain | .rectify => []
   | .plainOut | .approp | .exchange => ["CheckTransactionOutput"]
   | .zero | .sidePow => ["CheckTransactionInput", "CheckTransactionOutput"]
@@ -68,11 +71,11 @@ def expectedOverrides : Class → List String
 /-- can the class's SpecialContextCheck return `(nil, true)` (= accept without fee check)? -/
 def canEnd : Class → Bool
   | .coinbase | .zero | .sidePow | .activate | .approp => true
-  | .bare | .plain | .plainOut | .rectify | .exchange => false
+  | .refused | .bare | .plain | .plainOut | .rectify | .exchange => false
 
 /-- can it return `(nil, false)` / `(nil, <variable>)` (= go on to the fee check)? -/
 def canContinue : Class → Bool
-  | .bare | .plain | .plainOut | .rectify | .exchange | .sidePow | .activate => true
+  | .refused | .bare | .plain | .plainOut | .rectify | .exchange | .sidePow | .activate => true
   | .coinbase | .zero | .approp => false
 
 inductive Rev | pre | fixed
@@ -115,6 +118,7 @@ def inputsDistinct (ins : List In) : Bool := noDup (ins.map (·.op))
 def inputOK (rev : Rev) (c : Class) (env : Env) (ins : List In) : Bool :=
   match c with
   | .coinbase => ins.length == 1
+  | .refused => false           -- whatever the inputs
   | .zero => ins.length == 0
   | .sidePow => ins.length == 0 || inputsDistinct ins     -- new form: no inputs; old form: the default loop
   | .activate =>
@@ -133,7 +137,7 @@ def defaultOutputOK (outs : List Fixed64) : Bool :=
 def outputOK (c : Class) (env : Env) (nIn : Nat) (outs : List Fixed64) : Bool :=
   match c with
   | .coinbase => outs.length ≤ 65535 && 2 ≤ outs.length   -- (ratio rule not modelled here; C11)
-  | .bare | .plain | .plainOut | .rectify => defaultOutputOK outs
+  | .refused | .bare | .plain | .plainOut | .rectify => defaultOutputOK outs
   | .zero => outs.length == 0
   | .sidePow =>
       if nIn == 0 then
@@ -189,7 +193,7 @@ def specialStep (c : Class) (env : Env) (sp : Special) (outs refs : List Fixed64
   | .ok =>
     match c with
     | .coinbase => .endOK
-    | .bare | .plain | .plainOut | .exchange => .continue
+    | .refused | .bare | .plain | .plainOut | .exchange => .continue
     | .zero => .endOK
     | .sidePow => if refs.length == 0 then .endOK else .continue
     | .activate => if env.afterNFT then .continue else .endOK
